@@ -165,15 +165,17 @@ theorem san_toList {b : Board} (hwf : WF.wf b = true) (hhm : b.halfmove < 4095) 
         have : m.f.pieceMoved ≠ 1 := hpawn
         omega
       simp only [hne, Bool.false_eq_true, if_false, absMove, isEmpty_eq_all]
-      rw [others_all hwf hmp (fun _ => false), others_all hwf hmp (fun o => o % 8 != m.f.source % 8),
-        others_all hwf hmp (fun o => o / 8 != m.f.source / 8)]
+      have hE := others_all hwf hmp (fun _ => false)
+      have hFl := others_all hwf hmp (fun o => o % 8 != m.f.source % 8)
+      have hRk := others_all hwf hmp (fun o => o / 8 != m.f.source / 8)
+      simp only [hE, hFl, hRk]
       simp only [String.toList_append, hsfx, sqName_toList, renderSan, renderBody, capturesOf_eq hpa6,
         List.append_nil, letter_eq h2 hp6, standardDisamb, ← isEmpty_eq_all, String.toList_ofList, optC]
       generalize ((candSources b (genPseudo b) m.f).filter (· != m.f.source)).isEmpty = E
       generalize ((candSources b (genPseudo b) m.f).filter (· != m.f.source)).all (fun o => o % 8 != m.f.source % 8) = F
       generalize ((candSources b (genPseudo b) m.f).filter (· != m.f.source)).all (fun o => o / 8 != m.f.source / 8) = R
       cases E <;> cases F <;> cases R <;> cases (m.f.pieceAttacked != NO_PIECE) <;>
-        simp [Disamb.fileOf, Disamb.rankOf, optC, fileChar, rankChar]
+        simp [Disamb.fileOf, Disamb.rankOf, fileChar, rankChar]
   · -- castling
     have hck : ∃ long, castleKind m.f = some long := by
       have := C14.castleKind_iff hwf hmp
